@@ -275,6 +275,7 @@ func runC13(s *sess) map[string]any {
 		if !g.Wait() {
 			g.flush(s, round)
 			s.hang("a Lock/Unlock pair of fifo.Mutex, fifo.Map, cmap.Mutex or lock.Context returning", round)
+			stopRun()
 			break
 		}
 		wok := wgrp.Wait()
@@ -284,6 +285,7 @@ func runC13(s *sess) map[string]any {
 			og.flush(s, round)
 			g.flush(s, round)
 			s.hang("an OuterCancel RLock/Lock returning while Run is live and every reader releases when told to", round)
+			stopRun()
 			break
 		}
 		og.flush(s, round)
@@ -296,6 +298,7 @@ func runC13(s *sess) map[string]any {
 			s.hang("OuterCancel.Run returning after its context ended", round)
 		}
 		if !s.more() {
+			stopRun()
 			break
 		}
 		if ok, p := returns(func() {
@@ -313,6 +316,7 @@ func runC13(s *sess) map[string]any {
 				g.fail("panic/OuterCancel-after-shutdown", "Lock/RLock after shutdown panicked: %v", p)
 			} else {
 				s.hang("OuterCancel Lock/RLock returning after shutdown", round)
+				stopRun()
 				break
 			}
 		}
@@ -355,6 +359,7 @@ func runC13(s *sess) map[string]any {
 		}); !ok {
 			g.flush(s, round)
 			s.hang("acquiring a lock that every user has released", round)
+			stopRun()
 			break
 		}
 		g.flush(s, round)
